@@ -38,8 +38,11 @@ type vMgr struct {
 	// deepening round 2: "" = Manager.Update; "updated" / "deactivated" / "created" / "bogus" = Manager.Commit with that change type
 	// (onUpdate / Deactivate / onCreate / default branch); "new" = Manager.NewDocument with a key store handing out NewJWK, whose
 	// SQL document then goes through Commit(created)
+	// deepening round 3: "rmvm" = Manager.RemoveVerificationMethod(id, Rm) (Next is unused); "iscommitted" = Manager.IsCommitted for a
+	// change whose raw document is Next
 	Via    string `json:"via,omitempty"`
 	NewJWK string `json:"newJwk,omitempty"`
+	Rm     string `json:"rm,omitempty"`
 }
 
 type vMgrOp struct {
@@ -54,6 +57,8 @@ type vMgrOp struct {
 	Via   string   `json:"via,omitempty"`
 	Key   string   `json:"key,omitempty"` // via=new: the generated key (RFC 7638 thumbprint, base64url - the model's key name)
 	B58   string   `json:"b58,omitempty"` // via=new: the same thumbprint in base58, calculated by the harness's own code
+	Rm    string   `json:"rm,omitempty"`  // via=rmvm: the key id to remove; Doc = view of the resolved document (contexts added)
+	Hash  string   `json:"hash,omitempty"` // via=iscommitted: SHA-256 of the change's raw document
 }
 
 var errVerifStop = errors.New("verif-stop")
@@ -76,6 +81,9 @@ type vMgrResult struct {
 	newDoc  string // via=new: id | verificationMethod ids | number of entries per relationship of the document NewDocument made
 	nothing bool   // Commit answered nil without publishing (onUpdate on a deactivated document)
 	newKey, newB58 string
+	shape     string // via=rmvm: verificationMethod ids and capabilityInvocation ids of the PUBLISHED payload
+	committed string // via=iscommitted: "true" / "false"
+	rawHash   string
 }
 
 func (r vMgrResult) line() string {
@@ -84,6 +92,9 @@ func (r vMgrResult) line() string {
 	}
 	if r.nothing {
 		return "ok nothing"
+	}
+	if r.committed != "" {
+		return "ok committed=" + r.committed
 	}
 	var ps []string
 	for _, p := range r.prevs {
@@ -95,6 +106,9 @@ func (r vMgrResult) line() string {
 	}
 	if r.newDoc != "" {
 		out += " new=" + r.newDoc
+	}
+	if r.shape != "" {
+		out += " " + r.shape
 	}
 	return out
 }
@@ -186,6 +200,26 @@ func (n *vNode) runManager(m *vMgr) (res vMgrResult) {
 			mgr.db = vSQLDB
 		}
 		err = mgr.Commit(audit.TestContext(), change)
+	case "rmvm":
+		keyID, kerr := did.ParseDIDURL(m.Rm)
+		if kerr != nil {
+			res.class = "err:mgr:bad-kid"
+			return
+		}
+		if cur, _, rerr := res2.Resolve(*id, &resolver.ResolveMetadata{AllowDeactivated: true}); rerr == nil {
+			v := vView(withJSONLDContext(withJSONLDContext(*cur, did.DIDContextV1URI()), jsonld.JWS2020ContextV1URI()))
+			res.view = &v
+		}
+		err = mgr.RemoveVerificationMethod(audit.TestContext(), *id, *keyID)
+	case "iscommitted":
+		res.rawHash = hash.SHA256Sum(raw).String()
+		ok, cerr := mgr.IsCommitted(audit.TestContext(), change)
+		if cerr != nil {
+			res.class = "err:mgr:is-committed:" + vErrCause(cerr)
+			return
+		}
+		res.class, res.committed = "ok", fmt.Sprint(ok)
+		return
 	case "new":
 		// Manager.NewDocument with a key store that "generates" the given key and names it with the function NewDocument hands in
 		key, perr := jwk.ParseKey([]byte(m.NewJWK))
@@ -253,6 +287,21 @@ func (n *vNode) runManager(m *vMgr) (res vMgrResult) {
 		if captured.PublicKey != nil {
 			res.key = vThumbOfPublic(captured.PublicKey)
 		}
+		if m.Via == "rmvm" {
+			var pub did.Document
+			if json.Unmarshal(captured.Payload, &pub) != nil {
+				res.shape = "doc=UNPARSEABLE"
+			} else {
+				var vms, ci []string
+				for _, vm := range pub.VerificationMethod {
+					vms = append(vms, vm.ID.String())
+				}
+				for _, r := range pub.CapabilityInvocation {
+					ci = append(ci, r.ID.String())
+				}
+				res.shape = "doc=vm[" + strings.Join(vms, ",") + "]ci[" + strings.Join(ci, ",") + "]"
+			}
+		}
 		return
 	}
 	msg := ""
@@ -260,7 +309,7 @@ func (n *vNode) runManager(m *vMgr) (res vMgrResult) {
 		msg = err.Error()
 	}
 	switch {
-	case err == nil && m.Via == "updated": // nil and nothing handed to the network
+	case err == nil && (m.Via == "updated" || m.Via == "rmvm"): // nil and nothing handed to the network
 		res.class, res.nothing = "ok", true
 	case err == nil:
 		res.class = "err:mgr:nothing-published"
@@ -304,8 +353,12 @@ func (g *vGen) mgrStep(n *vNode) *vPair {
 	if g.rng.Intn(5) == 0 { // the creation side: NewDocument / Commit(created)
 		return g.mgrCreateStep(n)
 	}
+	if g.rng.Intn(6) == 0 { // round 3: IsCommitted for the latest / an older / a foreign / no document, known and unknown DIDs
+		g.mgrIsCommitted(d)
+		return nil
+	}
 	spec := d.latest().spec.clone()
-	via := []string{"", "", "", "updated", "updated", "deactivated", "bogus"}[g.rng.Intn(7)]
+	via := []string{"", "", "", "updated", "updated", "deactivated", "bogus", "rmvm", "rmvm"}[g.rng.Intn(9)]
 	switch g.rng.Intn(8) {
 	case 0:
 		vDeactivate(&spec)
@@ -338,11 +391,28 @@ func (g *vGen) mgrStep(n *vNode) *vPair {
 		spec = d.latest().spec.clone()
 		vDeactivate(&spec) // what Deactivate proposes itself; the proposal of the change is ignored
 	}
+	rm := ""
+	if via == "rmvm" {
+		// RemoveVerificationMethod works on the STORED latest version: a listed method (first / last / any), a method of another
+		// DID, an id nobody has, the id with another fragment case
+		spec = d.latest().spec.clone()
+		switch k := g.rng.Intn(8); {
+		case k <= 4 && len(spec.VMs) > 0:
+			rm = spec.VMs[[]int{0, len(spec.VMs) - 1, g.rng.Intn(len(spec.VMs))}[g.rng.Intn(3)]].ID
+		case k == 5 && len(all) > 0:
+			rm = all[g.rng.Intn(len(all))]
+		case k == 6 && len(spec.VMs) > 0:
+			rm = spec.VMs[0].ID + "x"
+		default:
+			rm = spec.ID + "#nobody"
+		}
+		vRemoveVM(&spec, rm)
+	}
 	payload := spec.payload()
 	if via == "updated" && g.rng.Intn(12) == 0 {
 		payload = []byte(`{"id": 7`) // the change log holds something that is no DID document
 	}
-	m := &vMgr{ID: spec.ID, Has: has, Next: base64.StdEncoding.EncodeToString(payload), Via: via}
+	m := &vMgr{ID: spec.ID, Has: has, Next: base64.StdEncoding.EncodeToString(payload), Via: via, Rm: rm}
 	if has == nil {
 		m.Has = []string{}
 	}
@@ -380,6 +450,53 @@ func (g *vGen) mgrStep(n *vNode) *vPair {
 	})
 	p.Pre = append(p.Pre, m)
 	return p
+}
+
+// what go-did's RemoveVerificationMethod does, on the generator's own bookkeeping (written independently: by id string)
+func vRemoveVM(spec *vDocSpec, id string) {
+	var vms []vVMSpec
+	for _, vm := range spec.VMs {
+		if vm.ID != id {
+			vms = append(vms, vm)
+		}
+	}
+	spec.VMs = vms
+	for rel, items := range spec.Rels {
+		var keep []interface{}
+		for _, it := range items {
+			switch t := it.(type) {
+			case string:
+				if t != id {
+					keep = append(keep, it)
+				}
+			case vVMSpec:
+				if t.ID != id {
+					keep = append(keep, it)
+				}
+			default:
+				keep = append(keep, it)
+			}
+		}
+		spec.Rels[rel] = keep
+	}
+}
+
+// an IsCommitted question, attached (like refused Update attempts) to the next pair
+func (g *vGen) mgrIsCommitted(d *vDid) {
+	id := d.latest().spec.ID
+	var raw []byte
+	switch g.rng.Intn(6) {
+	case 0, 1, 2:
+		raw = d.latest().spec.payload()
+	case 3:
+		raw = d.versions[g.rng.Intn(len(d.versions))].spec.payload()
+	case 4:
+		raw = []byte(`{"id": 7`)
+	default:
+		raw = d.latest().spec.payload()
+		id = "did:nuts:" + vBase58([]byte(fmt.Sprintf("never-created-%d", g.rng.Intn(1000))))
+	}
+	g.preQueue = append(g.preQueue, &vMgr{ID: id, Has: []string{}, Next: base64.StdEncoding.EncodeToString(raw), Via: "iscommitted"})
 }
 
 // the creation side of the publishing path. Mostly the REAL NewDocument (key store hands out a generator key, named by the
